@@ -341,6 +341,28 @@ func (fr *Frame) doCall(c ssa.CallInstruction, st *State, args []Term, recv *Ter
 			return rets
 		}
 	}
+	// Every function of /repo is verified under the assumption that its pointer, interface, function and map parameters
+	// are non-nil (unless its contract says `nilable p`); that assumption is an obligation of each call site.
+	if ci.fn != nil && fe.eng.inRepo(ci.fn) && len(ci.fn.Blocks) > 0 && len(ci.bindings) == 0 && len(args) == len(ci.fn.Params) {
+		for i, p := range ci.fn.Params {
+			if ci.contract != nil && ci.contract.Nilable[p.Name()] {
+				continue
+			}
+			switch p.Type().Underlying().(type) {
+			case *types.Pointer, *types.Interface, *types.Signature:
+			default:
+				continue // (nil maps may be read; a callee that writes one has its own nil-map-write obligation)
+			}
+			if args[i].K != SInt || fr.nonNilByConstruction(cc.Args[i]) {
+				continue
+			}
+			pn := p.Name()
+			if pn == "" {
+				pn = fmt.Sprintf("arg%d", i)
+			}
+			fr.safety(st, c, "nil-arg", callShort(c)+"("+pn+")", fmt.Sprintf("(not (= %s 0))", args[i].S))
+		}
+	}
 	if ci.contract != nil {
 		fe.usedContracts[ci.name] = true
 		if ci.fn != nil {
